@@ -479,6 +479,18 @@ class NdArr:
     def copy(self, *a, **k):
         return NdArr(self.shape, self.dtype, self.elems)
 
+    def view(self, dtype=None, *a, **k):
+        """The same bytes read as another dtype of the same item size (values re-decoded from the bytes; writes through such a
+        view are not followed back to the parent)."""
+        if dtype is None:
+            return self._view(self.shape, range(len(self._idx)))
+        dt = to_dtype(dtype)
+        if dt.name == self.dtype.name and dt.order == self.dtype.order:
+            return self._view(self.shape, range(len(self._idx)))
+        if dt.itemsize != self.dtype.itemsize:
+            raise LayoutMismatch(f'ndarray.view({dt!r}) of {self.dtype!r}: different item sizes are not modelled')
+        return decode_array(dt, units_of(self.tobytes()), self.size, 'ndarray.view').reshape(self.shape)
+
     def flatten(self, *a, **k):
         return NdArr((len(self._idx),), self.dtype, self.elems)
 
